@@ -1,6 +1,36 @@
+import os, sys
+sys.path.insert(0, os.path.dirname(os.path.dirname(os.path.abspath(__file__))))
+import checklib
+
+CALL_FILES = ["kvstore/kvstore.go", "kvstore/mapdb/mapdb.go", "kvstore/mapdb/synced_map.go", "kvstore/flushkv/flushkv.go",
+              "kvstore/debug/debug.go", "kvstore/utils/utils.go"]
+
+
+def regen(ctx):
+    """Two regenerated modules, both pinned by `rfl` obligations in Hive/Props/C04.lean:
+    Hive/Gen/C04_Skel.lean  - type facts (struct fields of the stores and batches, underlying types of IterDirection / Command / BitMask);
+    Hive/Gen/C04_Calls.lean - for every function of the anchored kvstore files the calls it makes, in source order, with the
+                              arguments expressed by parameter positions (harness/c04/gen)."""
+    fails = checklib.regen_skeletons(ctx, [
+        "kvstore/mapdb/mapdb.go:type=mapDB", "kvstore/mapdb/mapdb.go:type=batchedMutations", "kvstore/mapdb/synced_map.go:type=syncedKVMap",
+        "kvstore/flushkv/flushkv.go:type=flushKVStore", "kvstore/debug/debug.go:type=debugStore", "kvstore/debug/debug.go:type=Command",
+        "kvstore/kvstore.go:type=IterDirection", "ds/bitmask/bitmask.go:type=BitMask"])
+    out = os.path.join(checklib.LEAN, "Hive", "Gen", "C04_Calls.lean")
+    tmp = os.path.join(ctx.scratch, "C04_Calls.lean")
+    if os.path.exists(tmp):
+        os.remove(tmp)
+    rc, log = checklib.sh(["go", "run", "./c04/gen", tmp, "Hive.Gen.C04Calls"] + [os.path.join(ctx.repo, f) for f in CALL_FILES],
+                          cwd=checklib.HARNESS, timeout=600)
+    if rc != 0 or not os.path.exists(tmp):
+        return fails + [{"kind": "call-extractor", "detail": checklib.tail(log, 20)}]
+    checklib.write_gen(ctx, out, open(tmp).read())
+    return fails
+
+
 SPEC = {
     "lean_props": "Hive.Props.C04",
     "lean_namespace": "Hive.KV",
+    "regen": regen,
     "driver": "drv_c04",
     "harness": "c04",
     "theorems": ["C04_refines", "C04_refines_all_histories", "C04_inv_reachable", "C04_wrappers_transparent",
@@ -8,7 +38,8 @@ SPEC = {
                  "C04_deletePrefix_exact", "C04_batch_last_wins", "C04_cancel_noop", "C04_batch_handles_independent",
                  "C04_closed_everything_fails", "C04_close_is_final", "C04_copy_refines", "C04_copy_spec", "C04_prefix_range",
                  "C04_upperBound_none", "C04_concatBytes", "C04_copyBytes", "C04_closed_forever", "C04_iterate_backward_is_reverse",
-                 "C04_wrapper_trace", "C04_debug_reports", "C04_flush_follows_mutation", "C04_trace_tables_agree"],
+                 "C04_wrapper_trace", "C04_debug_reports", "C04_flush_follows_mutation", "C04_trace_tables_agree",
+                 "C04_calls_mapdb", "C04_calls_flushkv", "C04_calls_debug", "C04_calls_kvstore_utils", "C04_skeleton_types"],
     "trusted_base": [
         "hand-written model Hive/Model/KV.lean of kvstore/mapdb (+ flushkv, debug wrappers), tied to the working tree by "
         "line-by-line differential execution (harness/c04) on every run",
